@@ -142,6 +142,17 @@ def run(ck, rng, tier, prop="C01"):
                 bad = ("backtransform", "scores x loadings' back-transformed differs from the input by %.3g" % np.abs(B[:, keep] - Xa[:, keep]).max())
         if bad is None and np.abs(np.array(o["pred_same"]) - Tm).max() > 1e-7 * max(1.0, np.abs(Tm).max()):
             bad = ("projection_roundtrip", "projecting the training matrix gives scores differing by %.3g" % np.abs(np.array(o["pred_same"]) - Tm).max())
+        if bad is None and "resid_half" in o:
+            # GetResidualMatrix: preprocessed data minus the first k components, orthogonal to their loadings
+            for nm, k in (("resid_all", Tm.shape[1]), ("resid_half", (Tm.shape[1] + 1) // 2)):
+                Rk = np.array(o[nm])
+                ref = E0 - Tm[:, :k] @ Pm[:, :k].T
+                if Rk.shape != ref.shape or np.abs(Rk - ref).max() > 1e-8 * nrm * max(1, m):
+                    bad = ("residual_matrix", "GetResidualMatrix(%d components) differs from preprocessed data - T P' by %.3g" % (k, np.abs(Rk - ref).max() if Rk.shape == ref.shape else float("nan")))
+                    break
+                if np.abs(Rk @ Pm[:, :k]).max() > tol * nrm * max(1, n):
+                    bad = ("residual_matrix_not_orthogonal", "residual after %d components is not orthogonal to their loadings: max |R P| = %.3g" % (k, np.abs(Rk @ Pm[:, :k]).max()))
+                    break
         if bad:
             small = kind == "small" and scaling in (-1, 0)
             ck.fail("PCA", bad[0], bad[1] + " (shape %dx%d scaling %d npc %d)" % (n, m, scaling, npc),
